@@ -5,7 +5,11 @@ meta.json. Never leaves /repo modified."""
 import json, os, subprocess, sys, re
 SEED='/verif/seeded'
 def sh(cmd, **kw): return subprocess.run(cmd, shell=True, capture_output=True, text=True, **kw)
-assert sh('git -C /repo diff --quiet').returncode == 0, '/repo not clean'
+# REPO: the tree the patches are applied to (default /repo; a scratch worktree of /repo at the same commit when
+# several shards run in parallel: VGW_META_REPO=/tmp/wt-x); BIN: the checker binary
+REPO=os.environ.get('VGW_META_REPO','/repo')
+BIN=os.environ.get('VGW_META_BIN','/verif/bin/vgwsa')
+assert sh(f'git -C {REPO} diff --quiet').returncode == 0, REPO+' not clean'
 only = sys.argv[1:]
 rows=[]
 for d in sorted(os.listdir(SEED)):
@@ -13,13 +17,13 @@ for d in sorted(os.listdir(SEED)):
     p=os.path.join(SEED,d)
     if not os.path.exists(p+'/patch.diff'): continue
     prop=d.split('-')[0]
-    r=sh(f'git -C /repo apply {p}/patch.diff')
+    r=sh(f'git -C {REPO} apply {p}/patch.diff')
     if r.returncode!=0:
         print(d,'PATCH DOES NOT APPLY', r.stderr[:200]); continue
     try:
-        out=sh('/verif/bin/vgwsa check -prop all -no-evidence').stdout
+        out=sh(f'VGW_REPO={REPO} {BIN} check -prop all -no-evidence').stdout
     finally:
-        sh('git -C /repo checkout -- .')
+        sh(f'git -C {REPO} checkout -- . && git -C {REPO} clean -fdq')
     det={}
     for l in out.splitlines():
         m=re.match(r'violation: property=(\S+) rule=(\S+) key=(.*?) at (\S+): ',l)
@@ -39,11 +43,11 @@ for d in sorted(os.listdir(SEED)):
       'source': 'independent sub-agent given only the property text and a scratch worktree',
       'demo': open(p+'/demo_path.txt').read().strip() if os.path.exists(p+'/demo_path.txt') else None,
       'confirmed_by': '/verif/tools/confirm_mut.sh (scratch worktree): demo passes without the change, fails with it; go build ok; pinned 199-test suite passes with the change',
-      'checked_with': '/verif/tools/seeded_meta.py: git -C /repo apply patch.diff; vgwsa check -prop all; git -C /repo checkout -- .',
+      'checked_with': '/verif/tools/seeded_meta.py: git apply patch.diff on /repo (or on a scratch worktree of it at the same commit, VGW_META_REPO); vgwsa check -prop all; git checkout -- .',
       'detected': bool(det.get(prop)),
       'detected_by_own_property': det.get(prop, []),
       'also_reported_by': {k:[x['rule'] for x in v] for k,v in det.items() if k!=prop},
-      'repo_commit': sh('git -C /repo rev-parse --short HEAD').stdout.strip(),
+      'repo_commit': sh(f'git -C {REPO} rev-parse --short HEAD').stdout.strip(),
     })
     meta.setdefault('needs_to_manifest', (readme.split('\n\n')[1] if readme.count('\n\n')>1 else '')[:700])
     json.dump(meta, open(p+'/meta.json','w'), indent=1)
